@@ -148,8 +148,23 @@ def gen_case(rng):
         c = rng.choice(clauses)
         clauses.append((c[1], c[0]) if rng.random() < 0.5 else c)
         tags.add("redundant-or-reversed-clause")
+    dom2 = None
+    if rng.random() < 0.3:
+        # a second domain: another connector class with the same simple name K (in a package) and other variables
+        p2 = ["w%d" % i for i in range(rng.randint(1, 2))]
+        f2 = ["g%d" % i for i in range(rng.randint(1, 3))]
+        if len(p2) == len(pots) and len(f2) == len(flows):
+            f2.append("g9")
+        hs = ["h%d" % i for i in range(rng.randint(2, 3))]
+        hrefs = ["%s.%s" % (h, c) for h in hs for c in ("p", "n")]
+        hcl = [tuple(rng.sample(hrefs, 2)) for _ in range(rng.randint(1, 3))]
+        dom2 = {"pots": p2, "flows": f2, "comps": hs}
+        clauses += hcl
+        ktext += ("package Dq\n  connector K\n" + "".join("    Real %s;\n" % x for x in p2) + "".join("    flow Real %s;\n" % x for x in f2) +
+                  "  end K;\n  model H\n    K p;\n    K n;\n  end H;\nend Dq;\n\n")
+        tags.add("two-connector-classes-with-the-same-simple-name")
     rng.shuffle(clauses)
-    desc = {"pots": pots, "flows": flows, "lcons": lcons, "comps": comps, "ports": ports, "clauses": clauses,
+    desc = {"dom2": dom2, "pots": pots, "flows": flows, "lcons": lcons, "comps": comps, "ports": ports, "clauses": clauses,
             "sub_clauses": sub_clauses, "use_sub": use_sub, "sub_inner": ninner if use_sub else 0,
             "subcons": subcons if use_sub else []}
     header = ktext + ltext + subtext
@@ -158,6 +173,8 @@ def gen_case(rng):
 
 def top_text(desc, clauses):
     s = "model M\n" + "".join("  K %s;\n" % p for p in desc["ports"]) + "".join("  %s %s;\n" % (ty, nm) for nm, ty in desc["comps"])
+    if desc.get("dom2"):
+        s += "".join("  Dq.H %s;\n" % h for h in desc["dom2"]["comps"])
     s += "equation\n" + "".join("  connect(%s, %s);\n" % c for c in clauses) + "end M;\n"
     return s
 
@@ -172,7 +189,14 @@ def reference(desc, clauses):
         else:
             connectors += ["%s.%s" % (nm, c) for c in desc["subcons"]]
             connectors += ["%s.l%d.%s" % (nm, i, c) for i in range(desc["sub_inner"]) for c in desc["lcons"]]
-    variables = [c + "." + v for c in connectors for v in pots + flows]
+    cls = {c: (pots, flows) for c in connectors}
+    if desc.get("dom2"):
+        d2 = desc["dom2"]
+        for h in d2["comps"]:
+            for c in ("p", "n"):
+                connectors.append("%s.%s" % (h, c))
+                cls["%s.%s" % (h, c)] = (d2["pots"], d2["flows"])
+    variables = [c + "." + v for c in connectors for v in cls[c][0] + cls[c][1]]
     col = {v: i for i, v in enumerate(variables)}
     uf = UF()
     touched = set()      # connection elements (connector, inside?) that are in some connect clause
@@ -195,6 +219,7 @@ def reference(desc, clauses):
     rows = []
     for members in sets.values():
         members = sorted(set(members))
+        pots, flows = cls[members[0][0]]
         for v in pots:
             for m in members[1:]:
                 r = [Fraction(0)] * len(variables)
@@ -212,7 +237,7 @@ def reference(desc, clauses):
     for c in connectors:
         element = (c, c not in desc["ports"])
         if element not in touched:
-            for f in flows:
+            for f in cls[c][1]:
                 r = [Fraction(0)] * len(variables)
                 r[col[c + "." + f]] = Fraction(1)
                 rows.append(r)
